@@ -20,10 +20,10 @@ type caseSpec struct {
 }
 
 type params struct {
-	thorough    bool
-	rsplitHuge  bool // rsplit(None, 2^31) is safe to run (the pre-sizing defect is absent)
-	maxLen      int  // longest receiver of the exhaustive index/slice sub-space
-	glob        func(name string) *rand.Rand
+	thorough   bool
+	rsplitHuge bool // rsplit(None, 2^31) is safe to run (the pre-sizing defect is absent)
+	maxLen     int  // longest receiver of the exhaustive index/slice sub-space
+	glob       func(name string) *rand.Rand
 }
 
 var (
@@ -244,9 +244,9 @@ func buildSpecs(p *params) []caseSpec {
 	// ---------------------------------------------------------------- 2. searches with sub-ranges
 	{
 		alpha := "ab "
-		exh := pick(2, 4, T)
-		maxL := pick(5, 8, T)
-		perLen := pick(3, 40, T)
+		exh := pick(1, 4, T)
+		maxL := pick(4, 8, T)
+		perLen := pick(2, 40, T)
 		recvs := allStrings(alpha, exh)
 		r := p.glob("subrange")
 		for n := exh + 1; n <= maxL; n++ {
@@ -329,7 +329,7 @@ func buildSpecs(p *params) []caseSpec {
 
 	// ---------------------------------------------------------------- 3. split / rsplit
 	{
-		maxL := pick(4, 7, T)
+		maxL := pick(3, 7, T)
 		for _, alpha := range []string{"a, ", "a\n ", "a\t ", "ab,"} {
 			for _, ch := range chunk(allStrings(alpha, maxL), 16) {
 				ch := ch
@@ -581,8 +581,8 @@ func buildSpecs(p *params) []caseSpec {
 		// % interpolation.  Keyed and positional conversions are never mixed in one template (spec is silent).
 		posOperands := []val{
 			vTuple(), vTuple(vStr("a")), vTuple(vInt(1)), vTuple(vInt(1), vStr("b")), vTuple(vStr("a"), vInt(2), vNone), vTuple(vInt(-7)), vTuple(vInt(65)),
-			vTuple(vInt(65), vInt(255)), vTuple(vStr("ab")), vTuple(vTuple(vInt(1), vInt(2))), vTuple(vBool(true)), vTuple(vNone), vTuple(vList(vStr("s"), vInt(1))),
-			vTuple(vInt(1 << 62), vInt(-(1 << 31))), vTuple(vBig(big64)), vTuple(vInt(-1)), vTuple(vInt(128)),
+			vTuple(vInt(65), vInt(97)), vTuple(vStr("ab")), vTuple(vTuple(vInt(1), vInt(2))), vTuple(vBool(true)), vTuple(vNone), vTuple(vList(vStr("s"), vInt(1))),
+			vTuple(vInt(1<<62), vInt(-(1 << 31))), vTuple(vBig(big64)), vTuple(vInt(-1)), vTuple(vInt(127)),
 			vStr("a"), vStr("ab"), vStr(""), vInt(1), vInt(-255), vInt(65), vNone, vBool(true), vBool(false), vList(vInt(1)), vList(), vDict(), vDict(vStr("a"), vInt(1)),
 		}
 		posToks := []string{"%s", "%d", "%r", "%%", "%x", "%o", "%X", "%c", "%i", "%", "x", " ", "%5d", "%-s", "%.2f", "%z", "%(", "% d", "%05d", "%ld", "%S", "%*d", "%#x", "%+d"}
@@ -614,7 +614,9 @@ func buildSpecs(p *params) []caseSpec {
 			})
 		}
 		floatOperands := []val{vFloat("3.5"), vFloat("-2.0"), vFloat("0.0"), vFloat("3.7"), vFloat("-3.7"), vTuple(vFloat("3.5")), vTuple(vFloat("1.5"), vInt(2)), vTuple(vInt(3), vFloat("0.25")), vInt(7), vTuple(vStr("a")), vStr("a"), vBool(true), vNone}
-		floatToks := []string{"%d", "%i", "%e", "%f", "%g", "%E", "%F", "%G", "%s", "%r", "%%", "x"}
+		// %g/%G are left out: the spec leaves them unspecified ("TODO: specify %e and %f more precisely") and Starlark's
+		// %g deliberately keeps the ".0" of str(float); float formatting belongs to C10.
+		floatToks := []string{"%d", "%i", "%e", "%f", "%E", "%F", "%s", "%r", "%%", "x"}
 		var ftm []string
 		for _, a := range floatToks {
 			ftm = append(ftm, a)
@@ -713,7 +715,18 @@ func buildSpecs(p *params) []caseSpec {
 					ge := group{op: "l:extend", recv: recv, argsets: [][]val{{vList()}, {vList(vInt(7))}, {vTuple(vInt(7), vStr("b"))}, {vRange(0, 3, 1)}, {recv}, {vStr("ab")}, {vBytes("ab")}, {vNone}, {vInt(5)}, {}, {vList(), vList()}, {vDict(vStr("k"), vInt(1))}}}
 					ga := group{op: "l:append", recv: recv, argsets: [][]val{{vInt(9)}, {vList(vInt(1))}, {vNone}, {vStr("ab")}, {}, {vInt(1), vInt(2)}}}
 					gc := group{op: "l:clear", recv: recv, argsets: [][]val{{}, {vInt(1)}}}
-					gs = append(gs, gi, gp, gr, ge, ga, gc)
+					gset := group{op: "setitem", recv: recv}
+					for _, i := range idx {
+						gset.argsets = append(gset.argsets, []val{i, vInt(9)})
+					}
+					gset.argsets = append(gset.argsets, []val{vNone, vInt(9)}, []val{vStr("0"), vInt(9)}, []val{vFloat("0.0"), vInt(9)}, []val{vBig(big64), vInt(9)})
+					gs = append(gs, gi, gp, gr, ge, ga, gc, gset)
+					if n <= 2 {
+						// item assignment to immutable sequences must fail
+						for _, im := range []val{vTuple(l...), vStr("ab"[:n]), vBytes("ab"[:n]), vRange(0, int64(n), 1)} {
+							gs = append(gs, group{op: "setitem", recv: im, argsets: [][]val{{vInt(0), vInt(9)}, {vInt(-1), vStr("a")}, {vInt(5), vInt(9)}}})
+						}
+					}
 				}
 				return gs
 			})
